@@ -288,17 +288,7 @@ example :
       rw [this] at hp; simp at hp
       rcases hp with rfl | rfl <;> simp [Dict.has] at hk <;> (try rcases hk with rfl | rfl) <;> (try subst hk) <;> decide
   refine ⟨by decide, va, vb, ?_⟩
-  apply (Value.eq_iff a b va.1 vb.1 ?_ ?_).1 (by decide)
-  · intro p hp
-    have : a.ma = [([2], [([9, 9], 4), ([], 1)]), ([1], [([7], 5)])] := by decide
-    rw [this] at hp; simp at hp
-    rcases hp with rfl | rfl <;> refine ⟨by simp, ?_⟩ <;> intro q hq <;> simp at hq <;>
-      (try rcases hq with rfl | rfl) <;> (try subst hq) <;> decide
-  · intro p hp
-    have : b.ma = [([1], [([7], 5)]), ([2], [([], 1), ([9, 9], 4)])] := by decide
-    rw [this] at hp; simp at hp
-    rcases hp with rfl | rfl <;> refine ⟨by simp, ?_⟩ <;> intro q hq <;> simp at hq <;>
-      (try rcases hq with rfl | rfl) <;> (try subst hq) <;> decide
+  exact (Value.eq_iff a b).1 (by decide)
 
 end Pyc.C04
 
